@@ -122,6 +122,51 @@ fn big_queue_trace(seed: u64, run: u64) -> Trace {
     t
 }
 
+/// Special runs: a backlog of 63..300 unread items (counts around 64 / 256), then `:COUNt?`,
+/// `:ALL?` (which must return every item and leave the queue empty), `:COUNt?`, `[:NEXT]?`.
+fn backlog_trace(seed: u64, run: u64) -> Trace {
+    let mut rng = Rng::new(mix(seed, "C13-backlog", run));
+    let cfg = Config {
+        queue: if rng.chance(1, 4) { QueueCfg::Array { cap: 16 } } else { QueueCfg::Vec },
+        controllers: 1,
+        tree: TreeDesc {
+            mandated: true,
+            app: vec![],
+            fixed: None,
+        },
+        plain488: false,
+        no_mav: false,
+    };
+    let mut t = base_trace("C13", seed, run, "backlog", cfg.clone());
+    let tc = TreeCtx::new(&cfg.tree);
+    let n = *rng.pick(&[63usize, 64, 65, 66, 100, 128, 129, 255, 256, 257, 300]);
+    for k in 0..n {
+        t.steps.push(Step::Q(QOp::Push(ErrSpec {
+            code: 100 + (k % 30000) as i16,
+            ext: None,
+            msg: (k % 6) as u8,
+        })));
+    }
+    let seq: &[Contrib] = if rng.chance(1, 2) {
+        &[Contrib::SystErrCount, Contrib::SystErrAll, Contrib::SystErrCount, Contrib::SystErrNext]
+    } else {
+        &[Contrib::SystErrNext, Contrib::SystErrAll, Contrib::SystErrCount, Contrib::SystErrAll]
+    };
+    for c in seq {
+        let u = contrib_unit(&mut rng, &tc, *c, true, vec![], &[], true);
+        t.steps.push(Step::Send(SendStep {
+            ctl: 0,
+            fmt: FmtCfg::Vec,
+            msg: Msg {
+                units: vec![u],
+                end: B::new(),
+            },
+            corrupt: vec![],
+        }));
+    }
+    t
+}
+
 pub struct HistGen<'a> {
     pub rng: &'a mut Rng,
     pub tc: TreeCtx,
@@ -358,6 +403,9 @@ impl Prop for C13 {
     }
 
     fn gen(&self, seed: u64, run: u64, tier: Tier) -> Trace {
+        if run % 1000 == 13 && tier != Tier::Tiny {
+            return backlog_trace(seed, run);
+        }
         if run == 7 && tier != Tier::Tiny {
             return big_queue_trace(seed, run);
         }
